@@ -1,9 +1,4 @@
 // C17: threaded domain assembly - synthetic instrumented job (exactly-once, overlap, structure, checksum oracles)
 #include "common/c17_sched_core.hpp"
-int main(int argc, char** argv)
-{
-  FEAT::Runtime::ScopeGuard guard(argc, argv);
-  std::vector<vf::Target> tg;
-  c17::add_sched_targets(tg, "");
-  return vf::main_impl(argc, argv, tg);
-}
+void c17_register_sched(std::vector<vf::Target>& tg, const std::string& prefix) { c17::add_sched_targets(tg, prefix); }
+namespace c17 { std::atomic<int>& tsan_reports() { static std::atomic<int> n{0}; return n; } std::string& tsan_first() { static std::string s; return s; } }
